@@ -102,6 +102,7 @@ package electreIII
 //@   property C05 C06
 //@   ensures [unit_diagonal] i == j ==> result == 1.0
 //@   returnhint [off_diagonal_is_the_credibility] i != j ==> result == eleRes.D
+//@   assumes [definition_of_credV] i != j ==> result == credV(*a1, *a2, criteria, electreCriteria)
 
 // the pair's result: C the global concordance, D the credibility derived from it by the veto product
 //@ func electreIIICredibility
@@ -329,3 +330,32 @@ package electreIII
 //@   loop 1 invariant [none_so_far_is_better] ((forall x int :: !apply(isBetter, x, x)) && (forall x int, y int, z int :: apply(isBetter, x, y) && !apply(isBetter, x, z) ==> !apply(isBetter, y, z)))
 //@             ==> forall k int :: 0 <= k && k < iter ==> !apply(isBetter, bestValue, (*values)[k])
 //@   loop 1 invariant [input] unchanged(*values)
+
+// ---- building the credibility matrix (C05, C06): which pair lands in which cell
+//@ func evaluatePair
+//@   property C05 C06
+//@   ensures [fresh] fresh(result)
+//@   returnhint [first_against_second_on_this_criterion] c1Val == model.signed(*a1, *c) && c2Val == model.signed(*a2, *c) && ths == (*criteriaThresholds)[c.Id]
+//@             && result.criterion != nil && *result.criterion == ths
+
+// credV: the credibility "first outranks second", i.e. whatever evaluateAlternativesPair computes off the diagonal (a function
+// of the two alternatives and the parameter objects; introduced by an assumed postcondition = a definition)
+//@ spec credV(a1 AlternativeWithCriteria, a2 AlternativeWithCriteria, criteria *Criteria, ec *ElectreCriteria) real
+
+// row i, column j (row-major) holds the credibility of "alternative i outranks alternative j"; 1 on the diagonal
+//@ func evaluateCredibilityMatrix
+//@   property C05 C06
+//@   ensures [row_major_cells] result != nil && result.Values != nil && result.Values.Size == len(*alternatives) && len(result.Values.Data) == len(*alternatives) * len(*alternatives)
+//@             && forall i int, j int :: 0 <= i && i < len(*alternatives) && 0 <= j && j < len(*alternatives) ==>
+//@                  result.Values.Data[i * len(*alternatives) + j] == (i == j ? 1.0 : credV((*alternatives)[i], (*alternatives)[j], criteria, electreCriteria))
+//@   ensures [ids_in_order] result.Alternatives != nil && len(*result.Alternatives) == len(*alternatives) && forall i int :: 0 <= i && i < len(*alternatives) ==> (*result.Alternatives)[i] == (*alternatives)[i].Id
+//@   loop 1 invariant [ctx] fresh(credibilityFlatMatrix) && fresh(alternativesIds) && len(credibilityFlatMatrix) == alternativesNum * alternativesNum && len(alternativesIds) == alternativesNum && alternativesNum == len(*alternatives)
+//@   loop 1 invariant [rows_done] forall i int, j int :: 0 <= i && i < iter && 0 <= j && j < alternativesNum ==>
+//@                  credibilityFlatMatrix[i * alternativesNum + j] == (i == j ? 1.0 : credV((*alternatives)[i], (*alternatives)[j], criteria, electreCriteria))
+//@   loop 1 invariant [ids_done] forall i int :: 0 <= i && i < iter ==> alternativesIds[i] == (*alternatives)[i].Id
+//@   loop 2 invariant [ctx] fresh(credibilityFlatMatrix) && fresh(alternativesIds) && len(credibilityFlatMatrix) == alternativesNum * alternativesNum && len(alternativesIds) == alternativesNum && alternativesNum == len(*alternatives)
+//@             && 0 <= i && i < alternativesNum && a1 == (*alternatives)[i]
+//@   loop 2 invariant [rows_done] forall r int, j int :: 0 <= r && r < i && 0 <= j && j < alternativesNum ==>
+//@                  credibilityFlatMatrix[r * alternativesNum + j] == (r == j ? 1.0 : credV((*alternatives)[r], (*alternatives)[j], criteria, electreCriteria))
+//@   loop 2 invariant [this_row] forall j int :: 0 <= j && j < iter ==> credibilityFlatMatrix[i * alternativesNum + j] == (i == j ? 1.0 : credV((*alternatives)[i], (*alternatives)[j], criteria, electreCriteria))
+//@   loop 2 invariant [ids_done] forall r int :: 0 <= r && r <= i ==> alternativesIds[r] == (*alternatives)[r].Id
